@@ -29,6 +29,7 @@ var c08Faults = []c08Fault{
 	{"contains(`1`, `1`)", "invalid-type", false}, {"contains(`{}`, 'a')", "invalid-type", false}, {"ends_with('a', `1`)", "invalid-type", false},
 	{"abs('x')", "invalid-type", false}, {"length(`1`)", "invalid-type", false}, {"join(`1`, `[]`)", "invalid-type", false}, {"sum(`[1,\"a\"]`)", "invalid-type", false}, {"keys(`[]`)", "invalid-type", false},
 	{"sort(`[1,\"a\"]`)", "invalid-type", false}, {"merge(`1`)", "invalid-type", false}, {"max_by(`[{\"a\":[]}]`, &a)", "invalid-type", false}, {"starts_with(`1`, 'a')", "invalid-type", false},
+	{"pad_left('a', `1e400`)", "invalid-value", false}, {"split('a', 'b', `-1e400`)", "invalid-value", false}, {"replace('a', 'b', 'c', `-2e308`)", "invalid-value", false}, {"find_first('a', 'b', `1.5e400`)", "invalid-value", false},
 	{"pad_left('a', `-1`)", "invalid-value", false}, {"pad_left('a', `1.5`)", "invalid-value", false}, {"from_items(`[[\"a\"]]`)", "invalid-value", false}, {"from_items(`[[null, 1]]`)", "invalid-value", false}, {"from_items(`[[[1], 1]]`)", "invalid-value", false},
 	{"type(chan)", "invalid-type", false}, {"length(chan)", "invalid-type", false}, {"sort(`[null]`)", "invalid-type", false}, {"max(`[true]`)", "invalid-type", false}, {"zip(`1`)", "invalid-type", false}, {"split('a', 'b', `-1`)", "invalid-value", false},
 	{"replace('a', 'b', 'c', `-1`)", "invalid-value", false}, {"pad_right('a', `2`, 'xy')", "invalid-value", false}, {"find_first('a', 'b', `0.5`)", "invalid-value", false},
@@ -38,7 +39,8 @@ var c08Faults = []c08Fault{
 }
 
 // syntax faults are whole strings (they cannot be embedded as a sub-expression without staying malformed)
-var c08Syntax = []string{"a[", "a.", "'unterminated", "a b", "a ||", "[a,", "{a: }", "a[?b", "abs(a", "a | | b", ")", "a.[", "`{`", "\"\\x\"", "a[1 2]", "&a", "a.1", "#", "a\xff", "let $x = in a", "let x = a in b", "a[*", "a.b.", "@@", "a[0]]"}
+var c08Syntax = []string{"a[", "a.", "'unterminated", "a b", "a ||", "[a,", "{a: }", "a[?b", "abs(a", "a | | b", ")", "a.[", "`{`", "\"\\x\"", "a[1 2]", "&a", "a.1", "#", "a\xff", "let $x = in a", "let x = a in b", "a[*", "a.b.", "@@", "a[0]]",
+	"in", "let", " in ", "a\u00a0", "\u000ba", "a\u3000", "\u0085a", "\fa", "a.in", "in.a", "{let: a}", "{a: in}"}
 
 type c08Carrier struct {
 	Name      string
